@@ -557,17 +557,64 @@ theorem set_assign_seen_by_items (s : Store α) (hwf : s.WF) (sid : Nat) (t : RS
   simp only [Except.map, Store.val, Store.getX, hx]
   exact congrArg _ (hcell i hi)
 
+/-- the setter form of `product_yield` / `reactant_demand` is the `X` setter with a computed conversion: whatever
+holds of `a.X = x` (an item writes its set's cell, `item_write_seen_by_set`; frame `inplace_frame`) holds of it -/
+theorem setYield_is_setX (s s' : Store α) (a c k : Nat) (y : α) (b : BArg)
+    (h : s.step (.setYield a c y b) = .ok (s', k)) : ∃ x, s.step (.setX a x) = .ok (s', k) := by
+  simp only [Store.step, Store.pureOp, Store.setYieldOp] at h
+  split at h; · simp at h
+  rename_i ra hra
+  split at h; · simp at h
+  rename_i x hx
+  exact ⟨x, by simpa [Store.step, Store.pureOp, Store.setXOp, hra] using h⟩
+
+/-- **item_iadd_keeps_set_row** (repair C17-7).  `item += b` / `item -= b` leave the item object itself as it was: it
+still refers to the array of the set's row and to the set's X cell; the sum is written INTO that array and that cell
+(`inplace_frame`), so the set, its slices and every other item of the row read the same reaction as the item
+(`inplace_eq_binary_add/_sub` say which). -/
+theorem item_iadd_keeps_set_row (s s' : Store α) (sub : Bool) (a k : Nat) (b : Option Nat) (r : Rxn α) (xa i : Nat)
+    (hr : s.rxn? a = .ok r) (hx : r.x = .shared xa i)
+    (h : s.step (if sub then .isub a b else .iadd a b) = .ok (s', k)) :
+    s'.rxn? a = .ok r := by
+  have h' : s.iaddSubOp sub a b = .ok (s', k) := by cases sub <;> simpa [Store.step, Store.pureOp] using h
+  have hlt : a < s.objs.length := (List.getElem?_eq_some_iff.mp (rxn?_ok hr)).1
+  unfold Store.iaddSubOp at h'
+  rw [hr] at h'
+  simp only [] at h'
+  split at h'
+  · simp at h'
+  · simp at h'; rw [← h'.1]; exact hr
+  · split at h'
+    · simp at h'; rw [← h'.1]; exact hr
+    · split at h'; · simp at h'
+      simp at h'; rw [← h'.1]
+      apply rxn?_of_getElem?
+      simp [Store.assign, Store.writeX, hx, hlt]
+
 /-! ## What the in-place forms leave alone -/
 
-/-- `+= -= *= /=` and the `X` setter on `a`: no existing stoichiometry array is modified (`+=`/`-=` bind a new
-one to `a`), every other object keeps its fields, and the only X-array cell that can change is the one `a`
-refers to when `a` is a reaction item. -/
+/-- `+= -= *= /=` and the `X` setter on `a`.  Stoichiometry arrays: for a plain reaction no existing array is
+modified (`+=`/`-=` bind a new one to `a`); for a `ReactionItem` (repair C17-7) `+=`/`-=` overwrite exactly the array
+the item refers to — the row of its set — and no other.  Every other object keeps its fields, and the only X-array
+cell that can change is the one `a` refers to when `a` is a reaction item. -/
 theorem inplace_frame (s s' : Store α) (op : Op α) (a k : Nat)
     (hop : (∃ b, op = .iadd a b) ∨ (∃ b, op = .isub a b) ∨ (∃ c, op = .imul a c) ∨ (∃ c, op = .idiv a c)
             ∨ (∃ c, op = .setX a c))
     (h : s.step op = .ok (s', k)) :
-    k = a ∧ s.arrs <+: s'.arrs ∧ (∀ id, id ≠ a → s'.objs[id]? = s.objs[id]?) ∧
+    k = a ∧
+    (∀ r, s.rxn? a = .ok r →
+      (∀ x0, r.x = .own x0 → s.arrs <+: s'.arrs) ∧
+      (∀ aid, aid ≠ r.nu → aid < s.arrs.length → s'.arrs[aid]? = s.arrs[aid]?)) ∧
+    (∀ id, id ≠ a → s'.objs[id]? = s.objs[id]?) ∧
     (∀ r, s.rxn? a = .ok r → ∀ xa i, r.x ≠ .shared xa i → cell s' xa i = cell s xa i) := by
+  -- a store whose arrays extend the old ones satisfies the array clause
+  have af : ∀ (s2 : Store α), s.arrs <+: s2.arrs → ∀ r : Rxn α, s.rxn? a = .ok r →
+      (∀ x0, r.x = .own x0 → s.arrs <+: s2.arrs) ∧
+      (∀ aid, aid ≠ r.nu → aid < s.arrs.length → s2.arrs[aid]? = s.arrs[aid]?) := by
+    intro s2 hp r _
+    refine ⟨fun _ _ => hp, fun aid _ hlt => ?_⟩
+    obtain ⟨t, ht⟩ := hp
+    rw [← ht, List.getElem?_append_left hlt]
   have hw : ∀ (r : Rxn α) (x : α), s.arrs <+: (s.writeX a r x).arrs ∧
       (∀ id, id ≠ a → (s.writeX a r x).objs[id]? = s.objs[id]?) ∧
       (∀ xa i, r.x ≠ .shared xa i → cell (s.writeX a r x) xa i = cell s xa i) := by
@@ -609,7 +656,10 @@ theorem inplace_frame (s s' : Store α) (op : Op α) (a k : Nat)
   have hsame : s.arrs <+: s.arrs ∧ (∀ id, id ≠ a → s.objs[id]? = s.objs[id]?) ∧
       (∀ r, s.rxn? a = .ok r → ∀ xa i, r.x ≠ .shared xa i → cell s xa i = cell s xa i) :=
     ⟨List.prefix_refl _, fun _ _ => rfl, fun _ _ _ _ _ => rfl⟩
-  have hiaddsub : ∀ sub b, s.iaddSubOp sub a b = .ok (s', k) → k = a ∧ s.arrs <+: s'.arrs ∧
+  have hiaddsub : ∀ sub b, s.iaddSubOp sub a b = .ok (s', k) → k = a ∧
+      (∀ r, s.rxn? a = .ok r →
+        (∀ x0, r.x = .own x0 → s.arrs <+: s'.arrs) ∧
+        (∀ aid, aid ≠ r.nu → aid < s.arrs.length → s'.arrs[aid]? = s.arrs[aid]?)) ∧
       (∀ id, id ≠ a → s'.objs[id]? = s.objs[id]?) ∧
       (∀ r, s.rxn? a = .ok r → ∀ xa i, r.x ≠ .shared xa i → cell s' xa i = cell s xa i) := by
     intro sub b h
@@ -618,13 +668,36 @@ theorem inplace_frame (s s' : Store α) (op : Op α) (a k : Nat)
     rename_i ra hra
     split at h
     · simp at h
-    · simp at h; obtain ⟨rfl, rfl⟩ := h; exact ⟨rfl, hsame⟩
+    · simp at h; obtain ⟨rfl, rfl⟩ := h; exact ⟨rfl, af s (List.prefix_refl _), hsame.2⟩
     · split at h
-      · simp at h; obtain ⟨rfl, rfl⟩ := h; exact ⟨rfl, hsame⟩
+      · simp at h; obtain ⟨rfl, rfl⟩ := h; exact ⟨rfl, af s (List.prefix_refl _), hsame.2⟩
       · split at h; · simp at h
+        rename_i r hr
         simp at h; obtain ⟨rfl, rfl⟩ := h
-        obtain ⟨h1, h2, h3⟩ := hrebind ra _ _
-        exact ⟨rfl, h1, h2, fun r hr => by rw [hra] at hr; cases hr; exact h3⟩
+        cases hx : ra.x with
+        | own x0 =>
+          have hass : s.assign a ra r.v r.x = s.rebind a ra r.v r.x := by simp [Store.assign, hx]
+          rw [hass]
+          obtain ⟨h1, h2, h3⟩ := hrebind ra r.v r.x
+          exact ⟨rfl, af _ h1, h2, fun r' hr' => by rw [hra] at hr'; cases hr'; exact h3⟩
+        | shared xa0 i0 =>
+          have hass : s.assign a ra r.v r.x = Store.writeX { s with arrs := s.arrs.set ra.nu r.v } a ra r.x := by
+            simp [Store.assign, hx]
+          rw [hass]
+          refine ⟨rfl, fun r' hr' => ?_, fun id hid => by simp [Store.writeX, hx, List.getElem?_set_ne (Ne.symm hid)], ?_⟩
+          · rw [hra] at hr'; cases hr'
+            refine ⟨fun x0 h0 => absurd (hx.symm.trans h0) (by simp), fun aid hne _ => ?_⟩
+            simp [Store.writeX, hx, List.getElem?_set_ne (Ne.symm hne)]
+          · intro r' hr' xa i hne
+            rw [hra] at hr'; cases hr'
+            simp only [cell, Store.writeX, hx]
+            by_cases hxa : xa = xa0
+            · subst hxa
+              have hi : i ≠ i0 := fun e => hne (by rw [hx, e])
+              by_cases hl : xa < s.xarrs.length
+              · simp [List.getD, hl, List.getElem?_set_ne (Ne.symm hi)]
+              · simp [List.getD, Nat.not_lt.mp hl]
+            · simp [List.getD, List.getElem?_set_ne (Ne.symm hxa)]
   rcases hop with ⟨b, rfl⟩ | ⟨b, rfl⟩ | ⟨c, rfl⟩ | ⟨c, rfl⟩ | ⟨c, rfl⟩
   · exact hiaddsub false b (by simpa [Store.step, Store.pureOp] using h)
   · exact hiaddsub true b (by simpa [Store.step, Store.pureOp] using h)
@@ -633,20 +706,20 @@ theorem inplace_frame (s s' : Store α) (op : Op α) (a k : Nat)
     rename_i ra hra
     simp at h; obtain ⟨rfl, rfl⟩ := h
     obtain ⟨h1, h2, h3⟩ := hw ra _
-    exact ⟨rfl, h1, h2, fun r hr => by rw [hra] at hr; cases hr; exact h3⟩
+    exact ⟨rfl, af _ h1, h2, fun r hr => by rw [hra] at hr; cases hr; exact h3⟩
   · simp only [Store.step, Store.pureOp, Store.idivOp] at h
     split at h; · simp at h
     rename_i ra hra
     split at h; · simp at h
     simp at h; obtain ⟨rfl, rfl⟩ := h
     obtain ⟨h1, h2, h3⟩ := hw ra _
-    exact ⟨rfl, h1, h2, fun r hr => by rw [hra] at hr; cases hr; exact h3⟩
+    exact ⟨rfl, af _ h1, h2, fun r hr => by rw [hra] at hr; cases hr; exact h3⟩
   · simp only [Store.step, Store.pureOp, Store.setXOp] at h
     split at h; · simp at h
     rename_i ra hra
     simp at h; obtain ⟨rfl, rfl⟩ := h
     obtain ⟨h1, h2, h3⟩ := hw ra _
-    exact ⟨rfl, h1, h2, fun r hr => by rw [hra] at hr; cases hr; exact h3⟩
+    exact ⟨rfl, af _ h1, h2, fun r hr => by rw [hra] at hr; cases hr; exact h3⟩
 
 /-! ## Normalisation is an invariant of everything the operations return -/
 
@@ -1133,7 +1206,7 @@ def exStore : Store ℚ := Store.run { nchem := 5, mw := [18, 46, 180, 44, 32] }
 example : exStore.WF := reachable_wf 5 _ _
 
 /-- the store really contains what the theorems talk about: 6 objects; object 3 is an item reading cell 1 of
-X array 0, rebound by `+=` to a fresh array (id ≥ 3); object 4 is the sum with its own array; `makesFresh` and
+X array 0, still referring to the set's row array (id 3) after `+=`; object 4 is the sum with its own array; `makesFresh` and
 `inPlace = false` operations succeed on it -/
 example :
     (decide (exStore.objs.length = 6)
@@ -1183,6 +1256,34 @@ example :
       -- reaction 1 produces chemical 3, which package 1 lacks
       && (match exStore2.step (.reset 1 1) with | .error .undefinedChemical => true | _ => false)) = true := by
   decide +kernel
+
+/-- do a fresh `set[i]` and an existing object act differently on a feed? -/
+def itemsDisagree (s : Store ℚ) (sid i k : Nat) (n : List ℚ) : Bool :=
+  match s.step (.item sid i) with
+  | .ok (s', k') =>
+    (match s'.applyArr k' n, s.applyArr k n with
+     | .ok u, .ok w => decide (u ≠ w)
+     | _, _ => false)
+  | .error _ => false
+
+/-- the store `exStore` as the code BEFORE repair C17-7 would have produced it: the same history with the as-found
+in-place sum (`Store.iaddSubOpAsFound`) at the step `item 3 += reaction 0` -/
+def exStoreAsFound : Store ℚ :=
+  let s0 : Store ℚ := Store.run { nchem := 5, mw := [18, 46, 180, 44, 32] }
+    [.new 0 .mol 2 (1/2) [0, 2, -2, 2, -2], .new 0 .mol 2 (1/4) [1, 0, -1, 1, -1], .mkSet false [0, 1], .item 2 1,
+     .add 0 (some 1)]
+  match s0.iaddSubOpAsFound false 3 (some 0) with
+  | .ok (s1, _) => s1
+  | .error _ => s0
+
+/-- **The repaired behaviour on the sample, and the counterexample for the code as found.**  After
+`item += reaction` (object 3 = `set 2 [1]` in `exStore`) a fresh `set[1]` acts exactly like the changed item: the
+in-place sum wrote the set's row (repair C17-7, `Store.assign`).  With the as-found operation (new array bound to the
+item, conversion written to the set's cell) the two disagree: the set's row was stale — the defect
+`iadd:set-row-stale` that C17-7 repairs. -/
+theorem iadd_item_keeps_set_row_sample :
+    exStore.WF ∧ itemsDisagree exStore 2 1 3 exFeed = false ∧ itemsDisagree exStoreAsFound 2 1 3 exFeed = true :=
+  ⟨reachable_wf 5 _ _, by decide +kernel, by decide +kernel⟩
 
 end Examples
 
